@@ -126,9 +126,17 @@ def check_single(w):
     if ndf != endf:
         out.append(("ndf", endf, ndf, "wrong-value"))
     egof = gof_ref(w)
-    if (egof is None) != (gof is None) or (egof is not None and abs(gof - egof) > 1e-8 * max(1.0, abs(egof))):
-        out.append(("goodness_of_fit", egof, gof, "wrong-value"))
     fam = ref.cost_family(w.cost_id)[0] if w.ftype != "unbinned" else "nll"
+    posed = True
+    if fam == "ga":
+        # the Gaussian approximation is a likelihood only where its covariance V + diag(model) is positive definite: a fit that has
+        # wandered to negative model values leaves numbers of order 1e17 that mean nothing (not a well-posed state; ndf still is)
+        m = np.asarray(w.ref_model(), dtype=float)
+        W = w.ref_covs()["total"] + np.diag(m)
+        ev = np.linalg.eigvalsh(W)
+        posed = bool(np.all(m > 0) and ev[0] > 1e-10 * max(1.0, ev[-1]))
+    if posed and ((egof is None) != (gof is None) or (egof is not None and abs(gof - egof) > 1e-8 * max(1.0, abs(egof)))):
+        out.append(("goodness_of_fit", egof, gof, "wrong-value"))
     if fam == "chi2" and endf > 0:
         eprob = ref.chi2_sf(w.ref_cost(with_det=False), endf)
         if prob is None or abs(prob - eprob) > 1e-9 + 1e-7 * eprob:
